@@ -10,6 +10,11 @@ requests (one JSON object per line):
       the API-level model (σ = St, μ = Mut) on an empty directory; reply
       {"invocations":[{"init":{"res":..,"ops":[..]},"calls":[{"ops":[..],"ret":..,"raised":b}],"fin":{"ops":[..]}}],"files":{..}}
       ops: {"o":"createExcl","n":"lock"} ... {"o":"append","n":"dirty","snap":<state>} {"o":"rename","n":"dirty","to":"new"}
+ {"op":"runF","sessions":[{"init":{"lock":b,"commit":{"pos":p,"unlinkFails":b},"load":b,"fin":{..}},
+        "calls":[call + {"fault":null|"open"|"rename"|{"write":k}}],"fin":{"commit":{..},"unlock":b},
+        "crash":null|{"cut_calls":n,"garble":{"new":hex}}}]}
+      the faulty machine (`initF`/`callStepF`/`finalizeF`, `recover` after a crashed session); reply: per step ops,
+      exception code, files; "fresh": what a fault-free start (stale lock removed) loads afterwards
  {"op":"enc","hex":p}      -> {"hex": p ++ trailer(p)}
  {"op":"verify","hex":d}   -> {"ok": bool}
  {"op":"recover","files":{"<name>":{"hex":..,"synced":b}},"garble":{"<name>":hex},"table":[{"hex":..,"version":n}]}
@@ -125,6 +130,10 @@ def callOf (j : Json) : Option (Call Mut) :=
   | "setSync" => some .setSync
   | m => (mutOf m (getArr j "a")).map .mut
 
+def failStr : FailKind → String
+  | .stat => "stat" | .open => "open" | .write => "write" | .read => "read" | .fsync => "fsync"
+  | .rename => "rename" | .unlink => "unlink" | .lockOpen => "createExcl"
+
 def opJson (snap : Bytes → Json) : Op → Json
   | .createExcl n => Json.mkObj [("o", "createExcl"), ("n", nameStr n)]
   | .openTrunc n => Json.mkObj [("o", "openTrunc"), ("n", nameStr n)]
@@ -134,6 +143,7 @@ def opJson (snap : Bytes → Json) : Op → Json
   | .unlink n => Json.mkObj [("o", "unlink"), ("n", nameStr n)]
   | .stat n => Json.mkObj [("o", "stat"), ("n", nameStr n)]
   | .read n => Json.mkObj [("o", "read"), ("n", nameStr n)]
+  | .failed k n => Json.mkObj [("o", Json.str (failStr k ++ ":failed")), ("n", nameStr n)]
 
 /-- content written by the API-level model, shown as the decoded snapshot plus whether the trailer verifies -/
 def apiSnap (c : Bytes) : Json :=
@@ -198,6 +208,7 @@ def runHistJ (fs : FS) : List Json → FS × List Json
     let r' := runHistJ r.1 rest
     (r'.1, r.2 :: r'.2)
 
+
 /-! byte level: σ = index into the table of real pickles -/
 
 def isPrefix : Bytes → Bytes → Bool
@@ -230,11 +241,90 @@ def garbleOf (j : Json) : Garble := fun (n : StateFS.Name) d =>
   | .ok (.str h) => (Bytes.ofHex h).getD d
   | _ => d
 
+/-! faulty runs -/
+
+def cfOf (j : Json) : CF :=
+  { pos := match getStr j "pos" with
+      | "stat" => some .stat | "open" => some .open | "read" => some .read | "fsync" => some .fsync
+      | "rename" => some .rename | _ => none,
+    unlinkFails := getBool j "unlinkFails" }
+
+def finFaultOf (j : Json) : FinFault := { commit := cfOf (j.getObjValD "commit"), unlock := getBool j "unlock" }
+
+def initFaultOf (j : Json) : InitFault :=
+  { lock := getBool j "lock", commit := cfOf (j.getObjValD "commit"), load := getBool j "load",
+    fin := finFaultOf (j.getObjValD "fin") }
+
+def saveFaultOf (j : Json) : Option SaveFault :=
+  match j.getObjValD "fault" with
+  | .str "open" => some .open
+  | .str "rename" => some .rename
+  | .obj _ => some (.write (getNat (j.getObjValD "fault") "write"))
+  | _ => none
+
+def initResFJson : Except InitErrF (Option St) → String
+  | .ok _ => "ok"
+  | .error .locked => "locked"
+  | .error .loadIO => "loadIO"
+  | .error (.load e) => loadErrStr e
+
+def runCallsFJ (fs : FS) (mem : Mem St) : List Json → FS × Mem St × List Json
+  | [] => (fs, mem, [])
+  | j :: rest =>
+    match callOf j with
+    | none => let r := runCallsFJ fs mem rest; (r.1, r.2.1, err "bad-call" :: r.2.2)
+    | some cl =>
+      let r := callStepF apiCfg mem (saveFaultOf j) cl
+      let fs' := applyEvs fs r.2.1
+      let keyErr := match cl with
+        | .mut m => (match (stepSt mem.cur m).ret with | .keyError => true | _ => false)
+        | _ => false
+      let reply := Json.mkObj [("ops", opsJson apiSnap r.2.1), ("raised", Json.num r.2.2), ("keyError", Json.bool keyErr),
+        ("files", filesJson apiSnap fs'), ("cur", stJson r.1.cur)]
+      let r' := runCallsFJ fs' r.1 rest
+      (r'.1, r'.2.1, reply :: r'.2.2)
+
+def runSessionFJ (fs : FS) (j : Json) : FS × Json :=
+  let i := initF apiCfg fs (initFaultOf (j.getObjValD "init"))
+  let fs1 := applyEvs fs i.evs
+  let initJ := Json.mkObj [("res", Json.str (initResFJson i.res)), ("locked", Json.bool i.locked),
+    ("ops", opsJson apiSnap i.evs), ("files", filesJson apiSnap fs1)]
+  match i.res with
+  | .error _ => (fs1, Json.mkObj [("init", initJ)])
+  | .ok x =>
+    let crash := j.getObjValD "crash"
+    let calls := getArr j "calls"
+    let calls := match crash with | .obj _ => calls.take (getNat crash "cut_calls") | _ => calls
+    let (fs2, mem, replies) := runCallsFJ fs1 (memOf apiCfg x) calls
+    match crash with
+    | .obj _ =>
+      let fs3 := recover fs2 (garbleOf (crash.getObjValD "garble"))
+      (fs3, Json.mkObj [("init", initJ), ("calls", Json.arr replies.toArray), ("crashed", filesJson apiSnap fs3)])
+    | _ =>
+      let fe := finalizeF fs2 mem i.locked (finFaultOf (j.getObjValD "fin"))
+      let fs3 := applyEvs fs2 fe
+      (fs3, Json.mkObj [("init", initJ), ("calls", Json.arr replies.toArray),
+        ("fin", Json.mkObj [("ops", opsJson apiSnap fe), ("raised", Json.bool (!finalizeOk mem)),
+          ("files", filesJson apiSnap fs3)])])
+
+def runSessionsFJ (fs : FS) : List Json → FS × List Json
+  | [] => (fs, [])
+  | s :: rest =>
+    let r := runSessionFJ fs s
+    let r' := runSessionsFJ r.1 rest
+    (r'.1, r.2 :: r'.2)
+
 def main : IO Unit := runPure fun j =>
   match getStr j "op" with
   | "run" =>
     let r := runHistJ FS.empty (getArr j "invocations")
     Json.mkObj [("invocations", Json.arr r.2.toArray), ("files", filesJson apiSnap r.1)]
+  | "runF" =>
+    let r := runSessionsFJ FS.empty (getArr j "sessions")
+    let fsr := r.1.set .lock none
+    let i := initRun apiCfg fsr
+    Json.mkObj [("sessions", Json.arr r.2.toArray), ("files", filesJson apiSnap r.1),
+      ("fresh", Json.mkObj (initResJson stJson i.res))]
   | "enc" => Json.mkObj [("hex", Bytes.toHex (enc (hexBytes j "hex")))]
   | "verify" => Json.mkObj [("ok", Json.bool (verify (hexBytes j "hex")))]
   | "recover" =>
